@@ -245,8 +245,16 @@ func (lf *lockFacts) analyseScope(scope []*ssa.Function) {
 	for _, f := range lf.p.Funcs {
 		eachInstr(f, func(in ssa.Instruction) {
 			for _, op := range in.Operands(nil) {
-				if fn, ok := (*op).(*ssa.Function); ok && top[fn] {
-					if ci, isCall := in.(ssa.CallInstruction); isCall && ci.Common().Value == ssa.Value(fn) {
+				raw, ok := (*op).(*ssa.Function)
+				if !ok {
+					continue
+				}
+				fn := raw
+				if o := raw.Origin(); o != nil {
+					fn = o // a call inside a generic body names an instantiation of the callee
+				}
+				if top[fn] {
+					if ci, isCall := in.(ssa.CallInstruction); isCall && ci.Common().Value == ssa.Value(raw) {
 						if _, plain := in.(*ssa.Call); plain {
 							calls[fn] = append(calls[fn], in)
 						} else {
